@@ -423,7 +423,10 @@ def _value_line_tokenizer(func):
         first_line = True
         for line in v.splitlines(keepends=True):
             assert not _RE_WHITESPACE_LINE.match(v)
-            if line.startswith("#"):
+            # Only continuation lines can be comments: text that follows the
+            # field separator on the first line is a value even if it starts
+            # with "#".
+            if not first_line and line.startswith("#"):
                 yield Deb822CommentToken(line)
                 continue
             has_newline = False
